@@ -26,6 +26,7 @@ import (
 	"io"
 	"os"
 	"path/filepath"
+	"syscall"
 	"testing"
 
 	vw "github.com/westerndigitalcorporation/blb/pkg/verifwire"
@@ -47,8 +48,59 @@ func c08err(e error) int64 {
 		return 2
 	case ErrInvalidOffset:
 		return 3
+	case syscall.ENOSPC:
+		return 5
 	}
 	return 4
+}
+
+// c08qfile wraps the real file object (mockFile, injected through osFileOpener) with a space quota: bytes that
+// overwrite existing bytes or fall into a hole always succeed, bytes that extend the file consume e.free; when it is
+// used up the write is short and returns ENOSPC like os.File.WriteAt on a full disk. Truncation gives bytes back.
+type c08qfile struct {
+	mockFile
+	e *c08env
+}
+
+func (q *c08qfile) WriteAt(b []byte, off int64) (int, error) {
+	if q.e.free < 0 {
+		return q.mockFile.WriteAt(b, off)
+	}
+	st, err := q.mockFile.Stat()
+	if err != nil {
+		return 0, err
+	}
+	base := st.Size()
+	if off > base {
+		base = off
+	}
+	need := off + int64(len(b)) - base
+	if need < 0 {
+		need = 0
+	}
+	if need <= q.e.free {
+		q.e.free -= need
+		return q.mockFile.WriteAt(b, off)
+	}
+	n := int64(len(b)) - (need - q.e.free)
+	q.e.free = 0
+	if n > 0 {
+		if m, err := q.mockFile.WriteAt(b[:n], off); err != nil {
+			return m, err
+		}
+	}
+	vw.Stat("quota.short-writes", 1)
+	return int(n), &os.PathError{Op: "write", Path: q.e.path, Err: syscall.ENOSPC}
+}
+
+func (q *c08qfile) Truncate(size int64) error {
+	if q.e.free >= 0 {
+		if st, err := q.mockFile.Stat(); err == nil && st.Size() > size {
+			q.e.free += st.Size() - size
+		}
+		vw.Stat("quota.truncates", 1)
+	}
+	return q.mockFile.Truncate(size)
 }
 
 type c08env struct {
@@ -65,6 +117,7 @@ type c08env struct {
 	cost   int64 // estimated bytes the model has to CRC
 	ops    []string
 	class  int
+	free   int64 // space quota of the file-object wrapper; < 0 = unlimited
 }
 
 func (e *c08env) report(sig, what string, detail map[string]interface{}) {
@@ -423,7 +476,16 @@ func (e *c08env) opScrub() (int64, error) {
 }
 
 func (e *c08env) open(flags int) {
+	saved := osFileOpener
+	osFileOpener = func(path string, fl int, perm os.FileMode) (mockFile, error) {
+		f, err := openOsFile(path, fl, perm)
+		if err != nil {
+			return nil, err
+		}
+		return &c08qfile{mockFile: f, e: e}, nil
+	}
 	f, err := NewChecksumFile(e.path, flags)
+	osFileOpener = saved
 	if err != nil {
 		e.t.Fatalf("c08: open: %v", err)
 	}
@@ -493,6 +555,178 @@ func (e *c08env) opTamperTrunc(n int64) {
 func (e *c08env) opCheck() {
 	e.tr.Op(11)
 	e.tr.Obs(777, 1)
+}
+
+// ---- out-of-space episode ----
+
+func (e *c08env) opQuota(free int64) {
+	if free < 0 {
+		e.note("Quota(off)")
+		e.tr.Op(13)
+	} else {
+		e.note(fmt.Sprintf("Quota(free=%d)", free))
+		e.tr.Op(12, free)
+	}
+	e.free = free
+	e.tr.Obs(0)
+}
+
+// a write while the quota is installed: traced like WriteAt/Write; the monitor applies the out-of-space clauses
+func (e *c08env) quotaWrite(useCursor bool, off int64, d []byte) {
+	if useCursor {
+		off = e.f.pos
+	}
+	old := append([]byte{}, e.shadow...)
+	cls := e.writeClass(off, len(d))
+	// what an ordinary file would hold if the write went through
+	e.shadowWrite(off, d)
+	intended := append([]byte{}, e.shadow...)
+	e.shadow = old
+	var op vw.L
+	var n int
+	var err error
+	if useCursor {
+		e.note(fmt.Sprintf("Write(len=%d)@%d under quota %d", len(d), off, e.free))
+		op.Add(5)
+		op.Add(vw.RLE(d)...)
+		e.tr.Op(op...)
+		n, err = e.f.Write(d)
+		var ob vw.L
+		ob.Add(int64(n), c08err(err), e.f.pos)
+		ob.Add(vw.RLE(e.raw())...)
+		e.tr.Obs(ob...)
+	} else {
+		e.note(fmt.Sprintf("WriteAt(off=%d,len=%d) under quota %d", off, len(d), e.free))
+		op.Add(1, off)
+		op.Add(vw.RLE(d)...)
+		e.tr.Op(op...)
+		n, err = e.f.WriteAt(d, off)
+		var ob vw.L
+		ob.Add(int64(n), c08err(err))
+		ob.Add(vw.RLE(e.raw())...)
+		e.tr.Obs(ob...)
+	}
+	vw.Stat(fmt.Sprintf("quota.write.%s.err=%d", cls, c08err(err)), 1)
+	if !e.monOn {
+		return
+	}
+	det := map[string]interface{}{"off": off, "len": len(d), "n": n, "err": fmt.Sprint(err), "old_size": len(old), "intended_size": len(intended)}
+	bad := func(clause, what string) {
+		e.report("enospc:"+cls+":"+clause, what, det)
+		e.resync()
+	}
+	if err == nil {
+		e.shadow = intended
+		if n != len(d) {
+			bad("count", "a write that reported success under a space quota returned a short count")
+			return
+		}
+		if useCursor {
+			e.spos += int64(n)
+		}
+		e.afterMutation("writeq", cls)
+		return
+	}
+	if err != syscall.ENOSPC {
+		bad("unexpected-error", "a write that ran out of space returned an error other than ENOSPC")
+		return
+	}
+	// out of space: the file must still be a sound file holding the old content plus a prefix of the new data
+	sz, serr := e.f.Size()
+	c, cerr := e.content()
+	_, scerr := e.f.Scrub()
+	det["size"] = sz
+	switch {
+	case serr != nil || cerr != nil || scerr != nil:
+		det["size_err"], det["read_err"], det["scrub_err"] = fmt.Sprint(serr), fmt.Sprint(cerr), fmt.Sprint(scerr)
+		bad("file-unsound", "after a write that ran out of space the file no longer reads/scrubs cleanly")
+	case sz < int64(len(old)):
+		bad("lost-data", "a write that ran out of space made the file shorter than before")
+	case sz >= int64(len(intended)):
+		bad("size", "a write reported ENOSPC although the file holds everything that was to be written")
+	case !bytes.Equal(c, intended[:sz]):
+		det["first_diff"] = c08firstDiff(c, intended[:sz])
+		bad("content", "after a write that ran out of space the file does not hold a prefix of the intended content")
+	default:
+		want := sz - off
+		if want < 0 {
+			want = 0
+		}
+		if int64(n) != want {
+			det["want_n"] = want
+			bad("count", "a write that ran out of space reported a count different from the bytes of the buffer that are in the file")
+			return
+		}
+		e.shadow = c
+		if useCursor {
+			e.spos += int64(n)
+			if e.f.pos != e.spos {
+				bad("pos", "Write did not advance the cursor by the count it returned")
+			}
+		}
+	}
+}
+
+func (e *c08env) quotaEpisode(forceSmall bool) {
+	if !e.monOn {
+		return
+	}
+	main := e.r
+	e.r = main.Fork(424242) // keep the main random stream of the case unchanged
+	r := e.r
+	defer func() { e.r = main }()
+	size := int64(len(e.shadow))
+	var free int64
+	if e.class == 0 {
+		free = r.PickI64(0, 1, 3, 4, 5, 6, 9, 60, int64(r.Range(0, 400)), int64(r.Range(0, 2500)))
+	} else {
+		toB := c08DL - size%c08DL // data bytes to the end of the last block
+		free = r.PickI64(0, 1, 4, 5, 60, toB-1, toB, toB+1, toB+3, toB+4, toB+5, toB+9, toB+300, int64(r.Range(0, 3000)))
+		if free < 0 {
+			free = 0
+		}
+	}
+	if forceSmall || (size%c08DL == 0 && r.Bool()) {
+		// a new block has to be started: with <= 4 free bytes only a bare checksum fragment fits (truncate path)
+		free = r.PickI64(0, 1, 2, 3, 4, 5, 6)
+	}
+	e.opQuota(free)
+	nw := r.Range(1, 3)
+	for i := 0; i < nw; i++ {
+		size = int64(len(e.shadow))
+		var off int64
+		switch r.Intn(6) {
+		case 0, 1:
+			off = size // append
+		case 2:
+			off = size + int64(r.PickInt(1, 2, 7, 100, 900)) // hole
+		case 3:
+			off = size - int64(r.PickInt(1, 2, 5, 50)) // straddles EOF
+		case 4:
+			off = int64(r.Intn(int(size) + 1)) // may be entirely inside: must succeed whatever the quota
+		default:
+			off = size
+		}
+		if off < 0 {
+			off = 0
+		}
+		n := r.PickInt(0, 1, 2, 3, 4, 5, 6, 11, 100, r.Range(1, 600), r.Range(1, 3000))
+		if e.class != 0 && r.Chance(1, 3) {
+			n = int(c08DL - size%c08DL + int64(r.PickInt(-1, 0, 1, 5, 200)))
+			if n < 0 {
+				n = 1
+			}
+		}
+		d := e.mkdata(n)
+		if r.Chance(1, 4) {
+			e.opSeek(0, off)
+			e.quotaWrite(true, 0, d)
+		} else {
+			e.quotaWrite(false, off, d)
+		}
+	}
+	e.opQuota(-1)
+	vw.Stat("quota.episodes", 1)
 }
 
 // ---- generators ----
@@ -880,7 +1114,7 @@ func c08runCase(t *testing.T, tr *vw.Trace, root *vw.Rng, dir string, ci int, cl
 		return
 	}
 	r := root.Fork(uint64(ci))
-	e := &c08env{t: t, tr: tr, r: r, id: id, path: filepath.Join(dir, "f"+id), monOn: true, class: class}
+	e := &c08env{t: t, tr: tr, r: r, id: id, path: filepath.Join(dir, "f"+id), monOn: true, class: class, free: -1}
 	os.Remove(e.path)
 	tr.Case(id)
 	e.open(os.O_CREATE | os.O_EXCL | os.O_RDWR)
@@ -892,6 +1126,9 @@ func c08runCase(t *testing.T, tr *vw.Trace, root *vw.Rng, dir string, ci int, cl
 		os.Remove(e.path)
 	}()
 	nops := 0
+	if class == 0 && ci%8 == 1 {
+		e.quotaEpisode(true) // out of space on a still empty file
+	}
 	switch class {
 	case 0:
 		nops = r.Range(6, 24)
@@ -933,6 +1170,13 @@ func c08runCase(t *testing.T, tr *vw.Trace, root *vw.Rng, dir string, ci int, cl
 		e.burstEpisode()
 	}
 	e.opCheck()
+	if e.class == 0 && ci%2 == 0 || e.class == 1 && ci%4 == 0 {
+		e.quotaEpisode(false)
+		for i := 0; i < 2 && e.cost < e.budget(); i++ {
+			e.randomOp() // the file must behave like an ordinary file again once space is back
+		}
+		e.opCheck()
+	}
 	if (e.class == 0 && r.Chance(1, 2) || e.class != 0 && r.Chance(1, 4)) && e.monOn {
 		e.truncEpisode()
 		for i := 0; i < 3 && e.cost < e.budget(); i++ {
@@ -1127,8 +1371,8 @@ func TestVerifC08(t *testing.T) {
 	defer os.RemoveAll(dir)
 
 	nA := vw.Scale(400, 12000)
-	nB := vw.Scale(30, 1200)
-	nC := vw.Scale(6, 250)
+	nB := vw.Scale(26, 900)
+	nC := vw.Scale(6, 160)
 	ci := 0
 	for i := 0; i < nA; i++ {
 		c08runCase(t, tr, root, dir, ci, 0)
